@@ -1,0 +1,21 @@
+//go:build verif
+
+package forward
+
+// Contracts for the forwarding director (property C15), checked by /verif/govc.
+// Comment-only file: it adds nothing to any build.
+//
+// The director opens exactly one connection per call, to the configured backend and nowhere else: the
+// host is the configured one (without its port when it carries one), the port is the configured one when
+// the host carries one and otherwise the port the client connected to, the network is that of the
+// client's connection. ndials/dialnet/dialaddr are the ghost log of net.Dial.
+//@ spec bhost(h string) string = ite(splitok(h), splithost(h), h)
+//@ func (*forwardDirector).Dial
+//@   check safety
+//@   requires conn != nil
+//@   ensures [one-dial] ndials == old(ndials) + 1 || (ndials == old(ndials) && result1 != nil)
+//@   ensures [backend-host] ndials == old(ndials) + 1 ==> hostof(dialaddr[old(ndials)]) == bhost(d.Host)
+//@   ensures [backend-port] ndials == old(ndials) + 1 && splitok(d.Host) ==> portof(dialaddr[old(ndials)]) == splitport(d.Host)
+//@   ensures [client-port] ndials == old(ndials) + 1 && !splitok(d.Host) && typeis(laddr(conn), *net.TCPAddr) ==> portof(dialaddr[old(ndials)]) == decany(any(unbox(laddr(conn), *net.TCPAddr).Port))
+//@   ensures [network] ndials == old(ndials) + 1 ==> (typeis(laddr(conn), *net.TCPAddr) ==> dialnet[old(ndials)] == "tcp") && (!typeis(laddr(conn), *net.TCPAddr) ==> dialnet[old(ndials)] == "udp")
+//@   modifies ndials, dialnet, dialaddr
